@@ -46,7 +46,7 @@ Definition pes_m (w : W) (i : iter) : outcome (iter * option PESData * option ge
 Definition to_data_m (w : W) (d : PSIData) (fp : option Packet) (pid : Z) : outcome (list DemuxerData * W) :=
   match fp with Some fp => Done (to_data d fp pid, w) | None => Panicked end.
 
-Definition gen_parseData (ps : list Packet) (gprs : option go_parser) (pm : pmap) (w : W) :=
+Definition parse_data_is_generated_subject (ps : list Packet) (gprs : option go_parser) (pm : pmap) (w : W) :=
   parseData W get psi_m to_data_m pes_m ps gprs (pm_mem pm) w.
 
 Definition generic_errors (gprs : option go_parser) : Prop :=
@@ -88,9 +88,9 @@ Ltac default_path ps pm w get_length err_of_code :=
     eexists; rewrite code_x_wrap, err_of_code; split; reflexivity ].
 
 Theorem parse_data_is_generated ps gprs pm w : generic_errors gprs ->
-  pd_rel (gen_parseData ps gprs pm w) (parse_data parsers_of (option_map unembed_parser gprs) pm ps).
+  pd_rel (parse_data_is_generated_subject ps gprs pm w) (parse_data parsers_of (option_map unembed_parser gprs) pm ps).
 Proof.
-  intros Hgen. unfold gen_parseData, parseData, parse_data.
+  intros Hgen. unfold parse_data_is_generated_subject, parseData, parse_data.
   destruct gprs as [g|]; cbn [is_some option_map].
   - unfold unembed_parser. specialize (Hgen g ps).
     destruct (g ps) as [[[ds sk] [e|]]| |]; cbn [obind is_some pd_rel ewrap]; [| |reflexivity|reflexivity].
